@@ -165,10 +165,21 @@ impl<'i> RecipeCollector<'i, '_> {
                         None => panic!("End event without Start"),
                     };
 
+                    // A block can end up with nothing in it: a text block
+                    // whose lines are all blank (`>`), or a step that was
+                    // only an escape at the end of the input (`\`). That is
+                    // not content, don't add it (nor count it as a step).
+                    let is_empty = match &new_content {
+                        Content::Step(step) => step.items.is_empty(),
+                        Content::Text(text) => text.is_empty(),
+                    };
+
                     // If define mode is ingredients, don't add the
                     // step to the section. The components should have been
                     // added to their lists
-                    if self.define_mode != DefineMode::Components || new_content.is_text() {
+                    if !is_empty
+                        && (self.define_mode != DefineMode::Components || new_content.is_text())
+                    {
                         if new_content.is_step() {
                             self.step_counter += 1;
                         }
